@@ -1016,16 +1016,137 @@ Definition cells_apart (s : st) (w : bool) (ua ub : N) (tw : bool) (uc uc2 : N) 
 Definition keys_apart (w : bool) (ua ub : N) (tw : bool) (uc uc2 : N) : Prop :=
   w <> tw \/ (ua <> uc /\ ua <> uc2 /\ ub <> uc /\ ub <> uc2).
 
-Theorem copy_links_copies s w ua ub ea tw mask s' uc :
-  wf s -> inv s w ua ub -> get_ent w ua (ents s) = Some ea -> is_large (fam ea) = false ->
+Definition ready (s : st) (w : bool) (ua ub : N) (tw : bool) (c c2 : ent) (lc lc2 : N) : Prop :=
+  wf s /\ inv s w ua ub /\ alone s c lc /\ alone s c2 lc2 /\ wsp c = tw /\ wsp c2 = tw /\ uid c <> uid c2 /\ lc <> lc2
+  /\ rol c2 = other (rol c)
+  /\ (w <> tw \/ (ua <> uid c /\ ua <> uid c2)) /\ (w <> tw \/ (ub <> uid c /\ ub <> uid c2))
+  /\ (forall x l0, (get_ent w ua (ents s) = Some x \/ get_ent w ub (ents s) = Some x) -> md x = Some l0 -> l0 <> lc /\ l0 <> lc2).
+
+(* what a copy of one side of a pair establishes: both pairs satisfy the invariant, and the two copies hold one dict cell that
+   no member of the source pair holds *)
+Definition linked_copy (s : st) (w : bool) (ua ub : N) (tw : bool) (uc uc2 : N) : Prop :=
+  inv s tw uc uc2 /\ inv s w ua ub /\ wf s /\ keys_apart w ua ub tw uc uc2
+  /\ exists lc, (forall y, (get_ent tw uc (ents s) = Some y \/ get_ent tw uc2 (ents s) = Some y) -> md y = Some lc)
+             /\ (forall x, (get_ent w ua (ents s) = Some x \/ get_ent w ub (ents s) = Some x) -> md x <> Some lc).
+
+Lemma linked_copy_cells s w ua ub tw uc uc2 : linked_copy s w ua ub tw uc uc2 -> cells_apart s w ua ub tw uc uc2.
+Proof.
+  intros (_ & _ & _ & _ & lc & Hy & Hx) x y l Gx Gy Mx My.
+  rewrite (Hy y Gy) in My. inversion My; subst l. exact (Hx x Gx Mx).
+Qed.
+
+Lemma linked_copy_sym s w ua ub tw uc uc2 : linked_copy s w ua ub tw uc uc2 -> linked_copy s w ua ub tw uc2 uc.
+Proof.
+  intros (I1 & I2 & Hwf & K & lc & Hy & Hx).
+  split; [apply inv_sym; exact I1|]. split; [exact I2|]. split; [exact Hwf|]. split.
+  - destruct K as [E|(A & B & C & D)]; [left; exact E | right; repeat split; assumption].
+  - exists lc. split; [|exact Hx]. intros y [G|G]; apply Hy; [right | left]; exact G.
+Qed.
+
+(* linking two fresh, unlinked entities of the target workspace *)
+Lemma ready_link s w ua ub tw c c2 lc lc2 :
+  ready s w ua ub tw c c2 lc lc2 ->
+  linked_copy (em_link s c c2) w ua ub tw (uid c) (uid c2).
+Proof.
+  intros (Hwf & Hinv & Ac & Ac2 & Wc & Wc2 & Hcc2 & Hll & Hrol & Ka & Kb & Hsrc).
+  destruct (alone_sees s c lc Ac) as (Q1 & Q2 & Q3).
+  destruct Ac2 as (G2c & M2c & C2c & F2c & P2c & K12c & K22c).
+  destruct Ac as (Gc & Mc & Cc & Fc & Pc & K1c & K2c).
+  rewrite Wc in Gc. rewrite Wc2 in G2c.
+  destruct (em_link_inv s tw (uid c) (uid c2) c c2 (read s lc) Gc G2c Hcc2 Hrol Fc F2c Q1 Q2 Q3 (or_introl C2c)) as (L1 & L2 & L3 & L4 & L5).
+  split; [exact L1|]. split; [|split; [|split]].
+  - apply (inv_frame s _ w ua ub Hinv); try (apply L3; assumption).
+    intros l0 Hl0 _ (e & He & Emd). apply (L4 l0 Hl0). intros l1 El1. rewrite Mc in El1. inversion El1; subst l1.
+    apply (Hsrc e l0 He Emd).
+  - apply (wf_preserve s _ [(tw, uid c); (tw, uid c2)] Hwf L2).
+    + intros w0 u0 Hn. apply L3. destruct (Bool.bool_dec w0 tw) as [E1|E1]; [|left; exact E1]. right. subst w0. split.
+      * intros E. subst u0. apply Hn. left. reflexivity.
+      * intros E. subst u0. apply Hn. right. left. reflexivity.
+    + intros w0 u0 Hk. destruct L1 as (x1 & x2 & _ & X1 & X2 & _).
+      destruct Hk as [E|[E|[]]]; injection E as Ew0 Eu0; subst w0 u0.
+      * split; [exists x1; exact X1|]. apply N.lt_le_trans with (next s); [|exact L2]. apply (proj1 Hwf _ _ _ Gc).
+      * split; [exists x2; exact X2|]. apply N.lt_le_trans with (next s); [|exact L2]. apply (proj1 Hwf _ _ _ G2c).
+  - unfold keys_apart. destruct Ka as [E|[A1 A2]]; [left; exact E|]. destruct Kb as [E|[B1 B2]]; [left; exact E|]. right. repeat split; assumption.
+  - exists lc. split.
+    + intros y Hy. apply (L5 lc Mc y Hy).
+    + intros x Hx Mx.
+      assert (Hx' : get_ent w ua (ents s) = Some x \/ get_ent w ub (ents s) = Some x).
+      { destruct Hx as [Hx|Hx]; [left; rewrite <- (proj1 (L3 w ua Ka)) | right; rewrite <- (proj1 (L3 w ub Kb))]; exact Hx. }
+      apply (proj1 (Hsrc x lc Hx' Mx)). reflexivity.
+Qed.
+
+(* an own-key edit ("Tx ID property") of the first fresh entity before the link *)
+Lemma ready_edit s w ua ub tw c c2 lc lc2 :
+  ready s w ua ub tw c c2 lc lc2 ->
+  ready (em_edit s c KT VOwn) w ua ub tw c c2 lc lc2.
+Proof.
+  intros (Hwf & Hinv & Ac & Ac2 & Wc & Wc2 & Hcc2 & Hll & Hrol & Ka & Kb & Hsrc).
+  destruct (em_edit_alone s c lc KT VOwn Ac ltac:(discriminate) ltac:(discriminate) I) as (B1 & B2 & B3 & B4 & B5 & B6).
+  set (s' := em_edit s c KT VOwn) in *.
+  assert (Hfile : forall w0 u0, (w0 <> tw \/ u0 <> uid c) -> fget w0 u0 (file s') = fget w0 u0 (file s)).
+  { intros w0 u0 Hne. rewrite B6. apply fget_fput_other. rewrite Wc. exact Hne. }
+  assert (Hcell : forall l0, l0 <> lc -> ptr_ok s l0 -> read s' l0 = read s l0 /\ ptr_ok s' l0).
+  { intros l0 Hne [Pl Pr]. assert (Hh : hget l0 (heap s') = hget l0 (heap s)) by (rewrite B5; apply hget_hset_other; exact Hne).
+    split; [unfold read; rewrite B3, Hh; reflexivity|]. split; [rewrite B2; exact Pl | rewrite B2, Hh; exact Pr]. }
+  split; [|split; [|split; [exact B1|split; [|split; [exact Wc|split; [exact Wc2|split; [exact Hcc2|split; [exact Hll|split; [exact Hrol|split; [exact Ka|split; [exact Kb|]]]]]]]]]]].
+  - apply (wf_preserve s s' [(tw, uid c)] Hwf ltac:(rewrite B2; lia)).
+    + intros w0 u0 Hn. split; [rewrite B4; reflexivity|]. apply Hfile.
+      destruct (Bool.bool_dec w0 tw) as [E1|E1]; [|left; exact E1]. destruct (N.eq_dec u0 (uid c)) as [E2|E2]; [|right; exact E2].
+      subst. exfalso. apply Hn. left. reflexivity.
+    + intros w0 u0 [E|[]]. injection E as Ew0 Eu0; subst w0 u0. destruct B1 as (G & _). rewrite Wc in G. split; [exists c; exact G|].
+      rewrite B2. destruct Ac as (G0 & _). rewrite Wc in G0. apply (proj1 Hwf _ _ _ G0).
+  - apply (inv_frame s s' w ua ub Hinv); try (rewrite B4; reflexivity).
+    + apply Hfile. destruct Ka as [E|[E _]]; [left; exact E | right; exact E].
+    + apply Hfile. destruct Kb as [E|[E _]]; [left; exact E | right; exact E].
+    + intros l0 Hl0 _ (e & He & Emd). apply Hcell; [|exact Hl0]. apply (Hsrc e l0 He Emd).
+  - apply (alone_frame s s' c2 lc2 Ac2); [rewrite B4; reflexivity | rewrite B5; apply hget_hset_other; intros E; apply Hll; symmetry; exact E | rewrite B2; lia].
+  - intros x l0 Hx Mx. rewrite B4 in Hx. apply (Hsrc x l0 Hx Mx).
+Qed.
+
+(* a non-link edit through the first copy keeps everything a copy established *)
+Lemma linked_copy_edit1 s w ua ub tw uc uc2 ec k v :
+  linked_copy s w ua ub tw uc uc2 -> get_ent tw uc (ents s) = Some ec -> k <> KA -> k <> KB -> val_ok s v ->
+  linked_copy (em_edit s ec k v) w ua ub tw uc uc2.
+Proof.
+  intros (Hcp & Hsrc & Hwf & Hkeys & lc & Hy & Hx) Gc Hka Hkb Hv.
+  destruct (inv_sees _ _ _ _ Hcp) as (e1 & e2 & fd & H1 & H2 & H3 & H4 & H5 & H6 & H7 & H8 & H9 & H10 & H11 & H12).
+  assert (e1 = ec) by congruence. subst e1.
+  assert (Hk : forall r, k <> key_of r) by (intros [|]; assumption).
+  assert (Mc : md ec = Some lc) by (apply Hy; left; exact Gc).
+  destruct (em_edit_inv s tw uc uc2 ec e2 fd k v H1 H2 H3 H4 H5 H6 H7 H8 H9 (Hk _)) as (B1 & B2 & B3 & B4 & B5 & B6); try assumption.
+  - right. split; [apply Hk | exact H10].
+  - assert (Ka' : w <> tw \/ (ua <> uc /\ ua <> uc2)) by (destruct Hkeys as [E|(A & B & _)]; [left; exact E | right; split; assumption]).
+    assert (Kb' : w <> tw \/ (ub <> uc /\ ub <> uc2)) by (destruct Hkeys as [E|(_ & _ & A & B)]; [left; exact E | right; split; assumption]).
+    split; [exact B1|]. split; [|split; [|split; [exact Hkeys|]]].
+    + apply (inv_frame s _ w ua ub Hsrc); try (apply B4; assumption).
+      intros l0 Hl0 _ (x & Gx & Emd). apply (B5 l0 Hl0). intros l1 El1 E. subst l1. rewrite Mc in El1. inversion El1; subst l0.
+      exact (Hx x Gx Emd).
+    + apply (wf_preserve s _ [(tw, uc); (tw, uc2)] Hwf B3).
+      * intros w0 u0 Hn. apply B4. destruct (Bool.bool_dec w0 tw) as [E1|E1]; [|left; exact E1]. right. subst w0. split.
+        -- intros E. subst u0. apply Hn. left. reflexivity.
+        -- intros E. subst u0. apply Hn. right. left. reflexivity.
+      * intros w0 u0 Hk0. destruct B1 as (x1 & x2 & _ & X1 & X2 & _).
+        destruct Hk0 as [E|[E|[]]]; injection E as Ew0 Eu0; subst w0 u0.
+        -- split; [exists x1; exact X1|]. apply N.lt_le_trans with (next s); [|exact B3]. apply (proj1 Hwf _ _ _ H1).
+        -- split; [exists x2; exact X2|]. apply N.lt_le_trans with (next s); [|exact B3]. apply (proj1 Hwf _ _ _ H2).
+    + exists lc. split.
+      * intros y Gy. apply (B6 lc Mc y Gy).
+      * intros x Gx. apply Hx. destruct Gx as [G|G]; [left; rewrite <- (proj1 (B4 w ua Ka')) | right; rewrite <- (proj1 (B4 w ub Kb'))]; exact G.
+Qed.
+
+(* the copy of one side of a linked pair, for every family: ordinary surveys copy the partner under the same mask; large-loop
+   surveys copy it whole, and only when both sides carry a "Tx ID" property, with the receivers' own-property entry written
+   before (copy is the receivers) or after (copy is the transmitters) the link *)
+Theorem copy_links_copies_gen s w ua ub ea tw mask s' uc :
+  wf s -> inv s w ua ub -> get_ent w ua (ents s) = Some ea ->
+  (is_large (fam ea) = true -> ids ea = true /\ forall eb, get_ent w ub (ents s) = Some eb -> ids eb = true) ->
   (forall fd, sees s ea = Some fd -> link_keys_hold_uids fd) ->
   em_copy s ea tw mask = Ok (s', uc) ->
   exists uc2,
-    inv s' tw uc uc2 /\ inv s' w ua ub /\ wf s'
-    /\ get_ent tw uc (ents s) = None /\ get_ent tw uc2 (ents s) = None /\ uc <> uc2
-    /\ keys_apart w ua ub tw uc uc2 /\ cells_apart s' w ua ub tw uc uc2.
+    linked_copy s' w ua ub tw uc uc2
+    /\ get_ent tw uc (ents s) = None /\ get_ent tw uc2 (ents s) = None /\ uc <> uc2.
 Proof.
-  intros Hwf Hinv Ga Hlarge Hkeys Hcopy.
+  intros Hwf Hinv Ga Hlg Hkeys Hcopy.
   destruct (inv_sees _ _ _ _ Hinv) as (e1 & eb & fd & H1 & H2 & H3 & H4 & H5 & H6 & H7 & H8 & H9 & H10 & H11 & H12).
   assert (e1 = ea) by congruence. subst e1.
   destruct (get_ent_some _ _ _ _ H1) as [W1 U1]. destruct (get_ent_some _ _ _ _ H2) as [W2 U2].
@@ -1105,8 +1226,8 @@ Proof.
   assert (Ga4 : get_ent w ua (ents s4) = Some (with_md ea (Some l))) by (rewrite R4; exact M2).
   assert (Hr4 : refresh s4 ea = with_md ea (Some l)) by (apply refresh_get; rewrite W1, U1; exact Ga4). rewrite Hr4 in Hcopy.
   destruct (partner_inv s4 w ua ub (with_md ea (Some l)) Hinv4 Ga4) as (p & s5 & P1 & P2 & P3 & P4 & P5 & P6 & P7 & P8 & P9 & P10 & P11).
-  rewrite P1 in Hcopy. change (fam (with_md ea (Some l))) with (fam ea) in Hcopy. rewrite Hlarge in Hcopy.
-  destruct (masked_nv p mask) as [n2|]; [|discriminate].
+  rewrite P1 in Hcopy. change (fam (with_md ea (Some l))) with (fam ea) in Hcopy.
+  change (ids (with_md ea (Some l))) with (ids ea) in Hcopy.
   assert (Hlc4 : ptr_ok s4 lc) by (destruct R1 as (_ & _ & _ & _ & P & _); exact P).
   assert (Gc5 : get_ent (wsp c) (uid c) (ents s5) = get_ent (wsp c) (uid c) (ents s4)).
   { apply P8. rewrite S2. apply sym_key. exact Ka. }
@@ -1123,97 +1244,132 @@ Proof.
   assert (Gp4 : get_ent w ub (ents s4) = Some eb).
   { rewrite R4. rewrite M3 by (right; intros E; apply H3; symmetry; exact E). rewrite (proj1 (S8 w ub Kb)). exact H2. }
   assert (p = eb) by congruence. subst p.
-  destruct (spawn s5 eb tw n2) as [c2 s7] eqn:Esp2.
   assert (Hub5 : (uid eb < next s5)%N).
   { rewrite U2. apply N.lt_le_trans with (next s); [apply (Wf1 _ _ _ H2)|]. rewrite R2 in P7. lia. }
-  destruct (spawn_spec s5 eb tw n2 c2 s7 Hwf5 H6 Hub5 Esp2)
-    as (lc2 & T1 & T2 & T3 & T4 & T5 & T6 & T7 & T8 & T9 & T10 & T11).
-  injection Hcopy as Es Eu; subst s' uc.
   assert (Gc5' : get_ent tw (uid c) (ents s5) = Some c).
   { destruct A5 as (G & _). rewrite S2 in G. exact G. }
-  assert (Hcc2 : uid c <> uid c2) by (intros E; rewrite E in Gc5'; congruence).
-  assert (Kc2 : forall w0 u0 e0, get_ent w0 u0 (ents s5) = Some e0 -> w0 <> tw \/ u0 <> uid c2).
-  { intros w0 u0 e0 G. apply (key_differs s5 w0 u0 tw (uid c2) e0 G T5). }
-  assert (Gc7 : get_ent (wsp c) (uid c) (ents s7) = get_ent (wsp c) (uid c) (ents s5)).
-  { apply T8. rewrite S2. right. exact Hcc2. }
-  assert (Hlc5 : ptr_ok s5 lc) by (destruct A5 as (_ & _ & _ & _ & P & _); exact P).
-  assert (A7 : alone s7 c lc) by (apply (alone_frame s5 s7 c lc A5 Gc7 (T11 lc Hlc5) T6)).
   assert (Ga5 : exists ea5, get_ent w ua (ents s5) = Some ea5) by (destruct P4 as (x1 & _ & _ & X1 & _); exists x1; exact X1).
   destruct Ga5 as [ea5 Ga5].
   assert (Gb5 : get_ent w ub (ents s5) = Some eb) by (rewrite P8; [exact Gp4 | right; intros E; apply H3; symmetry; exact E]).
-  assert (Hinv7 : inv s7 w ua ub).
-  { apply (inv_frame s5 s7 w ua ub P4); try (apply T8; apply (Kc2 _ _ _ Ga5)); try (apply T8; apply (Kc2 _ _ _ Gb5)).
-    intros l0 Hl0 _ _. apply T9. exact Hl0. }
-  assert (Hr7 : refresh s7 c = c) by (apply refresh_get; destruct A7 as (G & _); exact G).
-  rewrite Hr7.
-  destruct (alone_sees s7 c lc A7) as (Q1 & Q2 & Q3).
-  destruct T1 as (G2c & M2c & C2c & F2c & P2c & K12c & K22c).
-  destruct A7 as (G7c & M7c & C7c & F7c & P7c & K17c & K27c).
-  destruct (em_link_inv s7 tw (uid c) (uid c2) c c2 (read s7 lc)) as (L1 & L2 & L3 & L4 & L5); try assumption.
-  - rewrite <- S2. exact G7c.
-  - rewrite <- T2. exact G2c.
-  - rewrite T3, S3. exact H4.
-  - left. exact C2c.
-  - exists (uid c2). split; [exact L1|].
-    (* the source pair is untouched by the link of the copies *)
-    assert (Ga7 : get_ent w ua (ents s7) = Some ea5) by (rewrite (proj1 (T8 w ua (Kc2 _ _ _ Ga5))); exact Ga5).
-    assert (Gb7 : get_ent w ub (ents s7) = Some eb) by (rewrite (proj1 (T8 w ub (Kc2 _ _ _ Gb5))); exact Gb5).
-    assert (Ka7 : w <> tw \/ (ua <> uid c /\ ua <> uid c2)).
-    { destruct (Bool.bool_dec w tw) as [Ew|Ew]; [|left; exact Ew]. right. split.
-      - intros E. rewrite Ew, E in H1. rewrite S5 in H1. discriminate.
-      - intros E. rewrite Ew, E in Ga5. rewrite T5 in Ga5. discriminate. }
-    assert (Kb7 : w <> tw \/ (ub <> uid c /\ ub <> uid c2)).
-    { destruct (Bool.bool_dec w tw) as [Ew|Ew]; [|left; exact Ew]. right. split.
-      - intros E. rewrite Ew, E in H2. rewrite S5 in H2. discriminate.
-      - intros E. rewrite Ew, E in Gb5. rewrite T5 in Gb5. discriminate. }
-    assert (Hsrc_md : forall x l0, (get_ent w ua (ents s7) = Some x \/ get_ent w ub (ents s7) = Some x) -> md x = Some l0 -> l0 <> lc).
-    { intros x l0 [Hx|Hx] Emd.
-      - rewrite Ga7 in Hx. inversion Hx; subst x.
-        destruct (P11 l eq_refl) as (y & Gy & My). rewrite Ga5 in Gy. inversion Gy; subst y. rewrite My in Emd. inversion Emd; subst l0. exact Hllc.
-      - rewrite Gb7 in Hx. inversion Hx; subst x. apply Hpb in Emd. destruct Emd as [E _]. intros E2. subst l0. lia. }
-    split; [|split; [|split; [exact S5 | split; [|split; [exact Hcc2|split]]]]].
-    4: { unfold keys_apart. destruct Ka7 as [E|[A1 A2]]; [left; exact E|]. destruct Kb7 as [E|[B1 B2]]; [left; exact E|]. right. repeat split; assumption. }
-    4: { unfold cells_apart. intros x y l0 Hx Hy Mx My.
-         assert (Hx7 : get_ent w ua (ents s7) = Some x \/ get_ent w ub (ents s7) = Some x).
-         { destruct Hx as [Hx|Hx]; [left; rewrite <- (proj1 (L3 w ua Ka7)) | right; rewrite <- (proj1 (L3 w ub Kb7))]; exact Hx. }
-         assert (Hy' : md y = Some lc) by (apply (L5 lc M7c y Hy)).
-         rewrite My in Hy'. inversion Hy'; subst l0. apply (Hsrc_md x lc Hx7 Mx). reflexivity. }
-    + apply (inv_frame s7 _ w ua ub Hinv7); try (apply L3; assumption).
-      intros l0 Hl0 _ (e & He & Emd). apply (L4 l0 Hl0). intros l1 El1. rewrite M7c in El1. inversion El1; subst l1.
-      (* the dicts of the source pair are older than the dict of the copy, or were loaded after it *)
-      destruct He as [He|He].
-      * rewrite Ga7 in He. inversion He; subst e. clear He.
-        destruct P4 as (x1 & x2 & fdx & X1 & X2 & _ & _ & _ & _ & _ & _ & _ & _ & X11 & _).
-        assert (x1 = ea5) by congruence. subst x1.
-        (* ea5 is the record after the partner getter: its dict is l *)
-        intros E. subst l0.
-        assert (Hmd5 : md ea5 = Some l).
-        { destruct (P11 l eq_refl) as (x & Gx & Mx). rewrite Ga5 in Gx. inversion Gx; subst x. exact Mx. }
-        rewrite Hmd5 in Emd. inversion Emd as [Ell]. apply Hllc. exact Ell.
-      * rewrite Gb7 in He. inversion He; subst e. apply Hpb in Emd. destruct Emd as [E _]. intros E2. subst l0. lia.
-    + apply (wf_preserve s7 _ [(tw, uid c); (tw, uid c2)]).
-      * apply (wf_preserve s5 s7 [(tw, uid c2)] Hwf5 T6).
-        -- intros w0 u0 Hn. apply T8. destruct (Bool.bool_dec w0 tw) as [E1|E1]; [|left; exact E1].
-           destruct (N.eq_dec u0 (uid c2)) as [E2|E2]; [|right; exact E2]. subst. exfalso. apply Hn. left. reflexivity.
-        -- intros w0 u0 [E|[]]. injection E as Ew0 Eu0; subst w0 u0. split; [exists c2; rewrite <- T2; exact G2c | exact T10].
-      * exact L2.
-      * intros w0 u0 Hn. apply L3. destruct (Bool.bool_dec w0 tw) as [E1|E1]; [|left; exact E1]. right. subst w0. split.
-        -- intros E. subst u0. apply Hn. left. reflexivity.
-        -- intros E. subst u0. apply Hn. right. left. reflexivity.
-      * intros w0 u0 Hk. destruct L1 as (x1 & x2 & _ & X1 & X2 & _).
-        destruct Hk as [E|[E|[]]]; injection E as Ew0 Eu0; subst w0 u0.
-        -- split; [exists x1; exact X1|]. apply N.lt_le_trans with (next s7); [|exact L2].
-           apply N.lt_le_trans with (next s5); [|exact T6]. apply (proj1 Hwf5 _ _ _ Gc5').
-        -- split; [exists x2; exact X2|]. apply N.lt_le_trans with (next s7); [exact T10 | exact L2].
-    + (* the complement copy is new in the target workspace *)
-      destruct (get_ent tw (uid c2) (ents s)) as [x|] eqn:Gx; [|reflexivity]. exfalso.
-      assert (Hx5 : exists y, get_ent tw (uid c2) (ents s5) = Some y).
-      { assert (Kx : forall w0, w0 <> tw \/ uid c2 <> uid c) by (intros w0; right; intros E; apply Hcc2; symmetry; exact E).
-        destruct (Bool.bool_dec tw w) as [Ew|Ew].
-        - rewrite Ew. rewrite Ew in Gx. destruct (N.eq_dec (uid c2) ua) as [Eu|Eu]; [rewrite Eu; exists ea5; exact Ga5|].
-          exists x. rewrite P8 by (right; exact Eu). rewrite R4. rewrite M3 by (right; exact Eu). rewrite (proj1 (S8 _ _ (Kx w))). exact Gx.
-        - exists x. rewrite P8 by (left; exact Ew). rewrite R4. rewrite M3 by (left; exact Ew). rewrite (proj1 (S8 _ _ (Kx tw))). exact Gx. }
-      destruct Hx5 as [y Hy]. congruence.
+  assert (Hsp : forall n2 c2 s7, spawn s5 eb tw n2 = (c2, s7) ->
+            exists lc2, ready s7 w ua ub tw c c2 lc lc2 /\ get_ent tw (uid c2) (ents s) = None /\ uid c <> uid c2).
+  { intros n2 c2 s7 Esp2.
+    destruct (spawn_spec s5 eb tw n2 c2 s7 Hwf5 H6 Hub5 Esp2)
+      as (lc2 & T1 & T2 & T3 & T4 & T5 & T6 & T7 & T8 & T9 & T10 & T11).
+    assert (Hcc2 : uid c <> uid c2) by (intros E; rewrite E in Gc5'; congruence).
+    assert (Kc2 : forall w0 u0 e0, get_ent w0 u0 (ents s5) = Some e0 -> w0 <> tw \/ u0 <> uid c2).
+    { intros w0 u0 e0 G. apply (key_differs s5 w0 u0 tw (uid c2) e0 G T5). }
+    assert (Gc7 : get_ent (wsp c) (uid c) (ents s7) = get_ent (wsp c) (uid c) (ents s5)).
+    { apply T8. rewrite S2. right. exact Hcc2. }
+    assert (Hlc5 : ptr_ok s5 lc) by (destruct A5 as (_ & _ & _ & _ & P & _); exact P).
+    assert (A7 : alone s7 c lc) by (apply (alone_frame s5 s7 c lc A5 Gc7 (T11 lc Hlc5) T6)).
+    assert (Hinv7 : inv s7 w ua ub).
+    { apply (inv_frame s5 s7 w ua ub P4); try (apply T8; apply (Kc2 _ _ _ Ga5)); try (apply T8; apply (Kc2 _ _ _ Gb5)).
+      intros l0 Hl0 _ _. apply T9. exact Hl0. }
+assert (Ga7 : get_ent w ua (ents s7) = Some ea5) by (rewrite (proj1 (T8 w ua (Kc2 _ _ _ Ga5))); exact Ga5).
+assert (Gb7 : get_ent w ub (ents s7) = Some eb) by (rewrite (proj1 (T8 w ub (Kc2 _ _ _ Gb5))); exact Gb5).
+assert (Ka7 : w <> tw \/ (ua <> uid c /\ ua <> uid c2)).
+{ destruct (Bool.bool_dec w tw) as [Ew|Ew]; [|left; exact Ew]. right. split.
+  - intros E. rewrite Ew, E in H1. rewrite S5 in H1. discriminate.
+  - intros E. rewrite Ew, E in Ga5. rewrite T5 in Ga5. discriminate. }
+assert (Kb7 : w <> tw \/ (ub <> uid c /\ ub <> uid c2)).
+{ destruct (Bool.bool_dec w tw) as [Ew|Ew]; [|left; exact Ew]. right. split.
+  - intros E. rewrite Ew, E in H2. rewrite S5 in H2. discriminate.
+  - intros E. rewrite Ew, E in Gb5. rewrite T5 in Gb5. discriminate. }
+    exists lc2. split; [|split; [|exact Hcc2]].
+    - split.
+      { apply (wf_preserve s5 s7 [(tw, uid c2)] Hwf5 T6).
+        - intros w0 u0 Hn. apply T8. destruct (Bool.bool_dec w0 tw) as [E1|E1]; [|left; exact E1].
+          destruct (N.eq_dec u0 (uid c2)) as [E2|E2]; [|right; exact E2]. subst. exfalso. apply Hn. left. reflexivity.
+        - intros w0 u0 [E|[]]. injection E as Ew0 Eu0; subst w0 u0. destruct T1 as (G2c & _). split; [exists c2; rewrite <- T2; exact G2c | exact T10]. }
+      split; [exact Hinv7|]. split; [exact A7|]. split; [exact T1|]. split; [exact S2|]. split; [exact T2|]. split; [exact Hcc2|].
+      assert (Hn5 : (next s <= next s5)%N) by (rewrite R2 in P7; lia).
+      split; [destruct Hlc5 as [X _]; lia|]. split; [rewrite T3, S3; exact H4|]. split; [exact Ka7|]. split; [exact Kb7|].
+      intros x l0 [Hx|Hx] Emd.
+      + rewrite Ga7 in Hx. inversion Hx; subst x.
+        destruct (P11 l eq_refl) as (y & Gy & My). rewrite Ga5 in Gy. inversion Gy; subst y. rewrite My in Emd. inversion Emd; subst l0.
+        split; [exact Hllc|]. destruct M8 as [X _]. rewrite R2 in P7. lia.
+      + rewrite Gb7 in Hx. inversion Hx; subst x. apply Hpb in Emd. destruct Emd as [E _]. split; lia.
+    - (* the complement copy is new in the target workspace *)
+destruct (get_ent tw (uid c2) (ents s)) as [x|] eqn:Gx; [|reflexivity]. exfalso.
+assert (Hx5 : exists y, get_ent tw (uid c2) (ents s5) = Some y).
+{ assert (Kx : forall w0, w0 <> tw \/ uid c2 <> uid c) by (intros w0; right; intros E; apply Hcc2; symmetry; exact E).
+  destruct (Bool.bool_dec tw w) as [Ew|Ew].
+  - rewrite Ew. rewrite Ew in Gx. destruct (N.eq_dec (uid c2) ua) as [Eu|Eu]; [rewrite Eu; exists ea5; exact Ga5|].
+    exists x. rewrite P8 by (right; exact Eu). rewrite R4. rewrite M3 by (right; exact Eu). rewrite (proj1 (S8 _ _ (Kx w))). exact Gx.
+  - exists x. rewrite P8 by (left; exact Ew). rewrite R4. rewrite M3 by (left; exact Ew). rewrite (proj1 (S8 _ _ (Kx tw))). exact Gx. }
+destruct Hx5 as [y Hy]. congruence.
+  }
+  assert (Rf : forall st0 c2 lc2, ready st0 w ua ub tw c c2 lc lc2 -> refresh st0 c = c /\ refresh st0 c2 = c2).
+  { intros st0 c2 lc2 (_ & _ & (G1 & _) & (G2 & _) & _). split; apply refresh_get; assumption. }
+  destruct (is_large (fam ea)) eqn:Hlarge.
+  - destruct (Hlg eq_refl) as [Hia Hib].
+    assert (Hids : ids ea && ids eb = true) by (rewrite Hia, (Hib eb H2); reflexivity). rewrite Hids in Hcopy.
+    destruct (spawn s5 eb tw (nv eb)) as [c2 s7] eqn:Esp2.
+    destruct (Hsp _ _ _ Esp2) as (lc2 & Rd & Nc2 & Hcc2).
+    assert (Hrc2 : rol c2 = other (rol c)) by (destruct Rd as (_&_&_&_&_&_&_&_&X&_); exact X).
+    assert (Wc2 : wsp c2 = tw) by (destruct Rd as (_&_&_&_&_&X&_); exact X).
+    exists (uid c2).
+    destruct (rol c) eqn:Erc; simpl in Hrc2; rewrite Hrc2 in Hcopy; cbv beta iota zeta in Hcopy.
+    + (* the copy is the receivers: its own-property entry is written before the link *)
+      destruct (Rf _ _ _ Rd) as [E1 _]. rewrite E1 in Hcopy.
+      pose proof (ready_edit _ _ _ _ _ _ _ _ _ Rd) as Rd8.
+      destruct (Rf _ _ _ Rd8) as [E2 E3]. rewrite E2, E3 in Hcopy.
+      injection Hcopy as Es Eu. subst s' uc.
+      split; [apply (ready_link _ _ _ _ _ _ _ _ _ Rd8)|]. split; [exact S5|]. split; [exact Nc2 | exact Hcc2].
+    + (* the copy is the transmitters: the complement's own-property entry is written after the link *)
+      destruct (Rf _ _ _ Rd) as [E1 E1']. rewrite E1, E1' in Hcopy.
+      pose proof (ready_link _ _ _ _ _ _ _ _ _ Rd) as L9.
+      injection Hcopy as Es Eu. subst s' uc.
+      split; [|split; [exact S5|split; [exact Nc2 | exact Hcc2]]].
+      assert (X2 : exists x2, get_ent tw (uid c2) (ents (em_link s7 c c2)) = Some x2).
+      { destruct L9 as ((x1 & x2 & _ & _ & X & _) & _). exists x2. exact X. }
+      destruct X2 as [x2 X2].
+      assert (Er : refresh (em_link s7 c c2) c2 = x2) by (apply refresh_get; rewrite Wc2; exact X2). rewrite Er.
+      apply linked_copy_sym. apply linked_copy_edit1; [apply linked_copy_sym; exact L9 | exact X2 | discriminate | discriminate | exact I].
+  - destruct (masked_nv eb mask) as [n2|]; [|discriminate].
+    destruct (spawn s5 eb tw n2) as [c2 s7] eqn:Esp2.
+    destruct (Hsp _ _ _ Esp2) as (lc2 & Rd & Nc2 & Hcc2).
+    destruct (Rf _ _ _ Rd) as [E1 _]. rewrite E1 in Hcopy.
+    injection Hcopy as Es Eu; subst s' uc.
+    exists (uid c2). split; [apply (ready_link _ _ _ _ _ _ _ _ _ Rd)|]. split; [exact S5|]. split; [exact Nc2 | exact Hcc2].
+Qed.
+
+Theorem copy_links_copies s w ua ub ea tw mask s' uc :
+  wf s -> inv s w ua ub -> get_ent w ua (ents s) = Some ea -> is_large (fam ea) = false ->
+  (forall fd, sees s ea = Some fd -> link_keys_hold_uids fd) ->
+  em_copy s ea tw mask = Ok (s', uc) ->
+  exists uc2,
+    inv s' tw uc uc2 /\ inv s' w ua ub /\ wf s'
+    /\ get_ent tw uc (ents s) = None /\ get_ent tw uc2 (ents s) = None /\ uc <> uc2
+    /\ keys_apart w ua ub tw uc uc2 /\ cells_apart s' w ua ub tw uc uc2.
+Proof.
+  intros Hwf Hinv Ga Hl Hk Hc.
+  destruct (copy_links_copies_gen s w ua ub ea tw mask s' uc Hwf Hinv Ga ltac:(intros E; rewrite Hl in E; discriminate) Hk Hc)
+    as (uc2 & L & N1 & N2 & D).
+  exists uc2. pose proof (linked_copy_cells _ _ _ _ _ _ _ L) as Cl. destruct L as (I1 & I2 & W & K & _).
+  split; [exact I1|]. split; [exact I2|]. split; [exact W|]. split; [exact N1|]. split; [exact N2|]. split; [exact D|].
+  split; [exact K | exact Cl].
+Qed.
+
+(* large-loop surveys whose two sides carry the "Tx ID" property: the same conclusion; the partner is copied whole *)
+Theorem copy_links_copies_large s w ua ub ea eb tw mask s' uc :
+  wf s -> inv s w ua ub -> get_ent w ua (ents s) = Some ea -> get_ent w ub (ents s) = Some eb ->
+  is_large (fam ea) = true -> ids ea = true -> ids eb = true ->
+  (forall fd, sees s ea = Some fd -> link_keys_hold_uids fd) ->
+  em_copy s ea tw mask = Ok (s', uc) ->
+  exists uc2,
+    inv s' tw uc uc2 /\ inv s' w ua ub /\ wf s'
+    /\ get_ent tw uc (ents s) = None /\ get_ent tw uc2 (ents s) = None /\ uc <> uc2
+    /\ keys_apart w ua ub tw uc uc2 /\ cells_apart s' w ua ub tw uc uc2.
+Proof.
+  intros Hwf Hinv Ga Gb Hl Hia Hib Hk Hc.
+  destruct (copy_links_copies_gen s w ua ub ea tw mask s' uc Hwf Hinv Ga
+              ltac:(intros _; split; [exact Hia | intros x Gx; rewrite Gb in Gx; inversion Gx; subst x; exact Hib]) Hk Hc)
+    as (uc2 & L & N1 & N2 & D).
+  exists uc2. pose proof (linked_copy_cells _ _ _ _ _ _ _ L) as Cl. destruct L as (I1 & I2 & W & K & _).
+  split; [exact I1|]. split; [exact I2|]. split; [exact W|]. split; [exact N1|]. split; [exact N2|]. split; [exact D|].
+  split; [exact K | exact Cl].
 Qed.
 
 (* ------------------------------------------------------------------ copies of copies *)
@@ -1371,6 +1527,46 @@ Proof.
     simpl in Hin. repeat (destruct Hin as [Hin|Hin]; [injection Hin as Ek Ev; subst k fv; try (eexists; reflexivity); destruct Hk; discriminate|]).
     contradiction.
   - split; vm_compute; reflexivity.
+Qed.
+
+(* non-vacuity of the large-loop copy theorem: receivers and transmitters that both carry the "Tx ID" property; the copy from the
+   receivers creates the pair (5, 7), the copy from the transmitters into the other workspace the pair (3, 1) *)
+Definition h_large : list op := [OCreate false FLarge RA true 4 []; OCreate false FLarge RB true 4 []; OLink 0 1].
+
+Example copy_large_nonvacuous :
+  exists s ea eb s1 s2,
+    run s0 h_large = Ok s /\ wf s /\ inv s false 1%N 3%N
+    /\ get_ent false 1%N (ents s) = Some ea /\ get_ent false 3%N (ents s) = Some eb
+    /\ is_large (fam ea) = true /\ ids ea = true /\ ids eb = true
+    /\ (forall fd, sees s ea = Some fd -> link_keys_hold_uids fd)
+    /\ (forall fd, sees s eb = Some fd -> link_keys_hold_uids fd)
+    /\ em_copy s ea false None = Ok (s1, 5%N) /\ map uid (ents s1) = [1; 3; 5; 7]%N
+    /\ em_copy s eb true None = Ok (s2, 3%N) /\ map uid (ents s2) = [1; 3; 3; 1]%N.
+Proof.
+  assert (H : exists s, run s0 h_large = Ok s /\ inv s false 1%N 3%N /\ wf s).
+  { eexists. split; [vm_compute; reflexivity|]. split.
+    - eexists _, _, _. split; [vm_compute; reflexivity|]. split; [vm_compute; reflexivity|]. split; [discriminate|].
+      split; [reflexivity|]. split; [reflexivity|]. split; [reflexivity|].
+      split; [vm_compute; reflexivity|]. split; [vm_compute; reflexivity|].
+      split; [vm_compute; reflexivity|]. split; [vm_compute; reflexivity|].
+      split; [|split; [|split; [right; reflexivity | left; reflexivity]]].
+      + unfold live_ok. simpl md. split; [vm_compute; reflexivity|]. split; [reflexivity|].
+        intros k wl Hin. vm_compute in Hin. repeat (destruct Hin as [Hin|Hin]; [inversion Hin; subst; reflexivity|]). contradiction.
+      + unfold live_ok. simpl md. split; [vm_compute; reflexivity|]. split; [reflexivity|].
+        intros k wl Hin. vm_compute in Hin. repeat (destruct Hin as [Hin|Hin]; [inversion Hin; subst; reflexivity|]). contradiction.
+    - apply wfb_sound. vm_compute. reflexivity. }
+  destruct H as (s & Hr & Hi & Hw).
+  assert (Hs : run s0 h_large = Ok s) by exact Hr. vm_compute in Hr. injection Hr as Es. subst s.
+  eexists _, _, _, _, _. split; [vm_compute; reflexivity|]. split; [exact Hw|]. split; [exact Hi|].
+  split; [vm_compute; reflexivity|]. split; [vm_compute; reflexivity|].
+  split; [reflexivity|]. split; [reflexivity|]. split; [reflexivity|]. split; [|split].
+  - intros fd Hfd. vm_compute in Hfd. injection Hfd as Efd. subst fd. intros k fv Hin Hk.
+    simpl in Hin. repeat (destruct Hin as [Hin|Hin]; [injection Hin as Ek Ev; subst k fv; try (eexists; reflexivity); destruct Hk; discriminate|]).
+    contradiction.
+  - intros fd Hfd. vm_compute in Hfd. injection Hfd as Efd. subst fd. intros k fv Hin Hk.
+    simpl in Hin. repeat (destruct Hin as [Hin|Hin]; [injection Hin as Ek Ev; subst k fv; try (eexists; reflexivity); destruct Hk; discriminate|]).
+    contradiction.
+  - split; [vm_compute; reflexivity|]. split; [vm_compute; reflexivity|]. split; vm_compute; reflexivity.
 Qed.
 
 (* ================================================================== direct-current electrode pairs *)
